@@ -230,9 +230,11 @@ def drain_before_restore(ctx, db, rid_='C05.drain-before-restore'):
             for i_, e_ in enumerate(tr_):
                 if e_.k == 'decl' and e_.get('depth', 0) == 0 and e_.get('init'):
                     # directly, or through a helper that returns the exchanged value (queue_impl *prev = install_queue();)
-                    o_ = origin_in_trace(tr_, i_ + 1, e_.get('var') if (e_.get('var') or '').startswith('local:') else 'local:' + (e_.get('var') or ''))[0] or ''
+                    raw_ = f_.ev(e_.get('id')) if e_.get('id') is not None else None          # (the item's own name may have been copy-propagated away)
+                    vn_ = (raw_.get('var') if raw_ is not None and raw_.k == 'decl' else e_.get('var')) or ''
+                    o_ = origin_in_trace(tr_, i_, e_.get('init'))[0] or ''
                     if o_ == INSTANCE or o_ == 'call(std::exchange)':
-                        saved_names.add((e_.get('var') or '').replace('local:', ''))
+                        saved_names.add(vn_.replace('local:', ''))
     seen = set()
     for lf in lams:
         if lf['key'] in seen:
